@@ -13,6 +13,7 @@ import (
 	"net/http/httptest"
 	"os"
 	"strings"
+	"sync"
 	"sync/atomic"
 	"syscall"
 	"time"
@@ -73,8 +74,40 @@ var portRange = func() int {
 	return hi - lo + 1
 }()
 
+// portsParked counts the distinct local ports held by TIME_WAIT sockets (/proc/net/tcp, state 06).
+// Connections closed first by a listener's side all park the listener's one port, so the plain socket
+// count overstates how much of the range is gone. The answer is cached for a second.
+var parked struct {
+	sync.Mutex
+	at time.Time
+	n  int
+}
+
+func portsParked() int {
+	parked.Lock()
+	defer parked.Unlock()
+	if time.Since(parked.at) < time.Second {
+		return parked.n
+	}
+	b, err := os.ReadFile("/proc/net/tcp")
+	if err != nil {
+		return -1
+	}
+	seen := map[string]struct{}{}
+	for _, line := range strings.Split(string(b), "\n")[1:] {
+		f := strings.Fields(line)
+		if len(f) > 3 && f[3] == "06" {
+			if i := strings.IndexByte(f[1], ':'); i >= 0 {
+				seen[f[1][i+1:]] = struct{}{}
+			}
+		}
+	}
+	parked.at, parked.n = time.Now(), len(seen)
+	return parked.n
+}
+
 // Pressure reports whether most of the port range (70 %) is parked in TIME_WAIT.
-func Pressure() bool { return TimeWait() > portRange*7/10 }
+func Pressure() bool { return TimeWait() > portRange*7/10 && portsParked() > portRange*7/10 }
 
 var waited atomic.Int64
 
@@ -89,7 +122,7 @@ func nap(d time.Duration) {
 
 // Calm waits (at most 75 s, TIME_WAIT lasts 60 s) until half of the port range is free again.
 func Calm() {
-	for i := 0; i < 150 && TimeWait() > portRange/2; i++ {
+	for i := 0; i < 150 && TimeWait() > portRange/2 && portsParked() > portRange/2; i++ {
 		nap(500 * time.Millisecond)
 	}
 }
